@@ -79,3 +79,76 @@ def tie_trivial(ctx, info, doc, f, t, sl, reqs, metas):
     reqs.append({"op": "replaceStepTrivial", "s": info.lean_id, "doc": info.node(doc), "from": f, "to": t, "slice": info.slice(sl)})
     metas.append(("replaceStepTrivial", replay, plan))
     ctx.count("replace_step plan:" + (plan[0] if isinstance(plan, list) else plan))
+
+
+# ---------------------------------------------------------------------------------------------
+# the Fitter (lean/PM/Fitter.lean) and the order-faithful fill / wrap choices (lean/PM/FillOrder.lean)
+
+def dfa_states(start):
+    """states of a content automaton in the order of SchemaInfo.dump_dfa"""
+    states, index = [start], {id(start): 0}
+    i = 0
+    while i < len(states):
+        for e in states[i].next:
+            if id(e.next) not in index:
+                index[id(e.next)] = len(states)
+                states.append(e.next)
+        i += 1
+    return states
+
+
+def tie_replace_step(ctx, info, doc, f, t, sl, reqs, metas):
+    """replace_step(doc, f, t, slice): the emitted step, exactly (None / ReplaceStep / ReplaceAroundStep)"""
+    replay = {"schema": info.name, "doc": doc.to_json(), "from": f, "to": t, "slice": sl.to_json()}
+    st, step = outcome(lambda: replace_step(doc, f, t, sl))
+    if st == "hang":
+        ctx.count("replace_step kind:hang (not compared)")
+        return
+    if st != "ok":
+        exp, kind = RAISES, "raises"
+    elif step is None:
+        exp, kind = ["none"], "none"
+    else:
+        exp = ["step", info.step(step)]
+        if isinstance(step, ReplaceAroundStep):
+            kind = "fitted-around"
+        else:
+            st2, fits = outcome(lambda: fits_trivially(doc.resolve(f), doc.resolve(t), sl))
+            kind = "trivial" if st2 == "ok" and fits else "fitted-replace"
+    reqs.append({"op": "replaceStep", "s": info.lean_id, "doc": info.node(doc), "from": f, "to": t, "slice": info.slice(sl)})
+    metas.append(("replaceStep", dict(replay, kind=kind, real=None if st != "ok" or step is None else step.to_json()), exp))
+    ctx.count("replace_step kind:" + kind)
+
+
+def tie_fill_wrap(ctx, info, rng, frags, reqs, metas, per_state=2):
+    """ContentMatch.fill_before (the nodes it returns) and find_wrapping (the chain), exactly, for every state of every
+    content automaton of the schema"""
+    from prosemirror.model import Fragment
+    schema = info.schema
+    types = list(schema.nodes.values())
+    for t in types:
+        if t.is_text:
+            continue
+        for qi, m in enumerate(dfa_states(t.content_match)):
+            for _ in range(per_state):
+                after = rng.choice(frags) if frags and rng.random() < 0.7 else Fragment.empty
+                start = rng.randint(0, after.child_count)
+                to_end = rng.random() < 0.5
+                after_types = [c.type for c in after.content[start:]]
+                st, fill = outcome(lambda: m.fill_before(after, to_end, start))
+                replay = {"schema": info.name, "type": t.name, "state": qi, "after": [x.name for x in after_types], "to_end": to_end}
+                exp = RAISES if st != "ok" else (None if fill is None else info.frag(fill))
+                reqs.append({"op": "fillBeforeO", "s": info.lean_id, "ty": info.nid[t.name], "q": qi,
+                             "after": [info.nid[x.name] for x in after_types], "toEnd": to_end})
+                metas.append(("fillBeforeO", replay, exp))
+                ctx.count("fill_before exact:" + ("raises" if st != "ok" else "none" if fill is None else "len%d" % min(fill.child_count, 3)))
+            for target in rng.sample(types, min(len(types), per_state + 1)):
+                st, chain = outcome(lambda: m.find_wrapping(target))
+                replay = {"schema": info.name, "type": t.name, "state": qi, "target": target.name}
+                exp = RAISES if st != "ok" else (None if chain is None else [info.nid[x.name] for x in chain])
+                reqs.append({"op": "findWrappingO", "s": info.lean_id, "ty": info.nid[t.name], "q": qi, "target": info.nid[target.name]})
+                metas.append(("findWrappingO", replay, exp))
+                ctx.count("find_wrapping exact:" + ("raises" if st != "ok" else "none" if chain is None else "len%d" % len(chain)))
+
+
+EXACT_OPS = ("fitsTrivially", "replaceStepTrivial", "deleteRangeTarget", "replaceStep", "fillBeforeO", "findWrappingO")
